@@ -247,6 +247,20 @@ func (e *Engine) solveAll(obls []*Obligation, workdir string, timeout int, jobs 
 		}(i, o)
 	}
 	wg.Wait()
+	// vacuity guards: a loop head / precondition must be reachable on SOME path; infeasible paths are normal
+	okGroup := map[string]bool{}
+	for _, o := range obls {
+		if o.Kind == "vacuity" && o.Status == "discharged" {
+			okGroup[o.Func+"/"+o.Name] = true
+		}
+	}
+	for _, o := range obls {
+		if o.Kind == "vacuity" && o.Status != "discharged" && okGroup[o.Func+"/"+o.Name] {
+			o.Status = "discharged"
+			o.Solver = "other-path"
+			o.Detail = "this path is infeasible; the same point is reachable on another path"
+		}
+	}
 }
 
 func (e *Engine) solveOne(i int, o *Obligation, workdir string, timeout int, thorough bool) {
